@@ -36,7 +36,7 @@ MIX = {
             'connect': 10, 'replace_subcircuit': 4, 'make_block': 3, 'block_from_slice': 2, 'delete_block': 1,
             'remove_block': 2, 'into_bench': 3, 'copy': 3, 'observe': 2, 'graphviz_bench': 1},
     'C10': {'new': 4, 'add_gate': 4, 'rename': 1, 'mark_output': 2, 'set_outputs': 1, 'connect': 24,
-            'make_block': 1, 'copy': 2, 'remove_gate': 1, 'replace_inputs': 1, 'into_bench': 1},
+            'make_block': 1, 'copy': 2, 'remove_gate': 2, 'replace_inputs': 1, 'into_bench': 1, 'delete_block': 2},
     'C19': {'new': 3, 'add_gate': 6, 'rename': 8, 'replace_inputs': 6, 'remove_gate': 6, 'replace_subcircuit': 10,
             'mark_output': 2, 'connect': 3, 'make_block': 3, 'block_from_slice': 1, 'copy': 1, 'into_bench': 1},
     'C14': {'new': 4, 'add_gate': 9, 'into_bench': 10, 'graphviz_bench': 2, 'make_block': 5, 'block_from_slice': 2,
@@ -938,6 +938,23 @@ class Hist:
         collide = any(g in b.gates for g in o.gates if g not in mapped) or any(k in b.blocks for k in o.blocks)
         if collide and rng.random() < 0.9 or rng.random() < 0.4:
             name = f'B{self.opi}'
+            used = getattr(self, 'block_names_used', None)
+            if used is None:
+                used = self.block_names_used = []
+            orphaned = sorted({g.split('@')[0] for g in b.gates if '@' in g} - set(b.blocks))
+            if orphaned and rng.random() < 0.3:
+                # gates that still carry the prefix of a block whose record is gone (delete_block, remove_gate on a member)
+                name = rng.choice(orphaned)
+                self.res.stats.probes.bump('block-name-whose-record-is-gone-reused')
+            elif used and rng.random() < 0.15:
+                # a name that was used for an earlier attachment in this run (its block may be gone by now - remove_gate
+                # on a member drops the record - while gates carrying its prefix are still there)
+                name = rng.choice(used)
+                self.res.stats.probes.bump('block-name-of-an-earlier-attachment-reused')
+            elif name not in used:
+                used.append(name)
+                if len(used) > 8:
+                    used.pop(0)
             if collide and rng.random() < 0.9:
                 add_prefix = True
         exp = self.compose_expect(b, o, this_conn, other_conn, right, name, add_prefix)
@@ -991,7 +1008,20 @@ class Hist:
             st.bump('left-connect-repeated-base-gate')
         if other_slots:
             st.bump('composition-with-population-member')
-        self.call(fn, [base], valid, desc)
+        accepted_collision = False
+        if exp.get('why') == 'label-collision':
+            self.ev['call'], self.ev['valid'] = desc, False
+            try:
+                fn()
+            except Exception as e:  # noqa
+                self.ev['out'] = f'rejected:{exc_name(e)}'
+                self.quarantine([base], 'rejected')
+                return
+            self.ev['out'] = 'accepted-invalid'
+            accepted_collision = True
+            st.bump('composition-with-colliding-labels-accepted')
+        else:
+            self.call(fn, [base], valid, desc)
         now, _ = observe.snap(base.real)
         # attached circuit unmodified
         o_now, _ = observe.snap(other_real)
@@ -1015,6 +1045,11 @@ class Hist:
         if name and valid and len(set(this_conn)) == len(this_conn) and len(set(other_conn)) == len(other_conn) \
                 and len(o.inputs) <= MAX_INPUTS_TT:
             self.check_block_extraction(base.real, name, o, right)
+        if accepted_collision:
+            for code, msg in observe.wf(base.real, with_copy=False)[:2]:
+                self.violate('C02', 'wf', f'connect:{code}:after-call-expected-to-be-rejected', msg)
+            self.quarantine([base], 'accepted-invalid')
+            return
         self.settle([base])
 
     def check_block_extraction(self, real, name, o: Net, right):
@@ -1074,8 +1109,11 @@ class Hist:
         if why is not None:
             exp['valid'] = False
             exp['why'] = why
-            exp['inputs'] = exp['outputs'] = None
-            return exp
+            if why != 'label-collision':
+                exp['inputs'] = exp['outputs'] = None
+                return exp
+            # a colliding label has to be refused; should the call return normally all the same, its result is still
+            # held against the composition it claims to have built (computed below as if the labels were distinct)
         m = dict(new)
         m.update(mapping)
         exp['outputs'] = [x for x in b.outputs if x not in this_conn] + [m[x] for x in o.outputs if x not in other_conn]
@@ -1085,7 +1123,7 @@ class Hist:
         else:
             exp['inputs'] = list(b.inputs) + [m[x] for x in o.inputs if x not in other_conn]
         ins = exp['inputs']
-        if len(ins) > MAX_INPUTS_TT or exp['valid'] is None or len(set(ins)) != len(ins):
+        if len(ins) > MAX_INPUTS_TT or exp['valid'] is None or (len(set(ins)) != len(ins) and why is None):
             exp['out_lanes'] = None
             return exp
         n = len(ins)
